@@ -661,6 +661,17 @@ func c04Panics(c *Ctx) {
 				}
 				n++
 				ob := c.Ob("C04.R5", name+"/call "+f.Name()+"#"+itoa(n), x.Pos())
+				inCore := false
+				for _, g := range core {
+					if c.FuncObj(g) == f {
+						inCore = true
+					}
+				}
+				switch {
+				case inCore:
+					ob.OkTrivial("call within the parser core: the callee carries the same obligations")
+					return true
+				}
 				switch f.Name() {
 				case "parseList", "parseObject", "ParseList", "ParseObject":
 					ob.OkTrivial("recursive/entry call: same obligations")
@@ -770,11 +781,21 @@ func c04StringAccess(c *Ctx) {
 							bad = "slice " + c.termStr(s) + " of the input is not json[i:] with the loop index i < len(json): it can go out of range on short input"
 						}
 					}
+					if inner, ok := x.X.(TSlice); ok && isParamTerm(inner.X, m.jsonV) {
+						bad = "re-slicing " + c.termStr(s) + " of the rest of the input is not decided: it can go out of range on short input"
+					}
 				case TIndex:
 					if isParamTerm(x.X, m.jsonV) {
 						n++
 						if !m.loopVar(x.I, m.idxV) {
 							bad = "index " + c.termStr(s) + " of the input is not guarded by the loop condition"
+						}
+					}
+					// json[i:][k]: the rest of the input is non-empty inside the loop (i < len(json)), so only its first byte is surely there
+					if inner, ok := x.X.(TSlice); ok && isParamTerm(inner.X, m.jsonV) {
+						n++
+						if k, isK := constInt(x.I); !isK || k != 0 {
+							bad = "index " + c.termStr(s) + " into the rest of the input can go out of range on short input"
 						}
 					}
 				}
@@ -827,32 +848,94 @@ func (c *Ctx) argKindsSafe(e ast.Expr, fieldKinds []string, pvCases map[string]b
 		}
 		return false, "static type " + shortType(t) + " is not a case of parseVal"
 	}
-	// interface{}: must be the first result of parseField
-	o := c.obj(e)
-	ok := false
-	if o != nil {
-		if pf := c.Decl("parseField"); pf != nil {
-			for _, fd := range c.decls {
-				ast.Inspect(fd.Body, func(n ast.Node) bool {
-					if as, isAs := n.(*ast.AssignStmt); isAs && len(as.Lhs) == 2 && len(as.Rhs) == 1 && c.obj(as.Lhs[0]) == o {
-						if call, isCall := unparen(as.Rhs[0]).(*ast.CallExpr); isCall && c.callee(call) == c.FuncObj(pf) {
-							ok = true
-						}
-					}
-					return true
-				})
-			}
-		}
-	}
-	if !ok {
+	// interface{}: every definition of the variable is the first result of a producer of this package whose returns all hand back
+	// values of a type parseVal accepts (parseField's literals; helpers returning nested containers)
+	return c.anyVarKindsSafe(c.obj(e), pvCases, 0)
+}
+
+func (c *Ctx) anyVarKindsSafe(o types.Object, pvCases map[string]bool, depth int) (bool, string) {
+	if o == nil || depth > 3 {
 		return false, "value of type any that is not the result of parseField"
 	}
-	for _, k := range fieldKinds {
+	var kinds []string
+	found, bad := 0, ""
+	for _, fd := range c.decls {
+		if fd.Body == nil {
+			continue
+		}
+		ast.Inspect(fd.Body, func(n ast.Node) bool {
+			as, isAs := n.(*ast.AssignStmt)
+			if !isAs {
+				return true
+			}
+			for i, l := range as.Lhs {
+				if c.obj(l) != o {
+					continue
+				}
+				found++
+				if len(as.Rhs) != 1 || i != 0 {
+					bad = "value of type any assigned from something other than the first result of a producer call"
+					continue
+				}
+				call, isCall := unparen(as.Rhs[0]).(*ast.CallExpr)
+				if !isCall || c.callee(call) == nil || c.callee(call).Pkg() != c.Types {
+					bad = "value of type any that is not the result of parseField"
+					continue
+				}
+				ks, why := c.producerKinds(c.callee(call), pvCases, depth)
+				if why != "" {
+					bad = why
+				}
+				kinds = append(kinds, ks...)
+			}
+			return true
+		})
+	}
+	if found == 0 || bad != "" {
+		if bad == "" {
+			bad = "value of type any that is not the result of parseField"
+		}
+		return false, bad
+	}
+	set := map[string]bool{}
+	for _, k := range kinds {
+		set[k] = true
 		if !pvCases[k] {
-			return false, "parseField may return a " + k + ", which parseVal rejects"
+			return false, "a producer may return a " + k + ", which parseVal rejects"
 		}
 	}
-	return true, "parseField yields " + strings.Join(fieldKinds, "|")
+	return true, "producers yield " + strings.Join(keysOf(set), "|")
+}
+
+// producerKinds: the static types of the first result on every success return of f (a function of this package returning (any, …)).
+func (c *Ctx) producerKinds(f *types.Func, pvCases map[string]bool, depth int) ([]string, string) {
+	fd := c.DeclOf(f)
+	if fd == nil || fd.Body == nil {
+		return nil, "producer " + f.Name() + " has no body"
+	}
+	var kinds []string
+	for _, r := range returnsOf(fd.Body) {
+		if len(r.Results) == 0 {
+			return nil, "producer " + f.Name() + " uses a bare return"
+		}
+		e := r.Results[0]
+		if c.isNil(e) {
+			kinds = append(kinds, "nil")
+			continue
+		}
+		t := c.typeOf(e)
+		if t == nil {
+			return nil, "untyped result in " + f.Name()
+		}
+		if !isEmptyIface(t) {
+			kinds = append(kinds, shortType(t))
+			continue
+		}
+		if ok, why := c.anyVarKindsSafe(c.obj(e), pvCases, depth+1); !ok {
+			return nil, why
+		}
+	}
+	return kinds, ""
 }
 
 func c04Determinism(c *Ctx) {
